@@ -175,10 +175,11 @@ theorem C18_problem_iff (st : State) (name : String) (h : Option Int) :
       · simp [hp, fail]
 
 def SelectWF (st : State) (name : Option String) (workers : List String) (n : Int) : Prop :=
-  2 ≤ workers.length ∧ 0 < n ∧ n ≤ workers.length ∧ (∀ w ∈ workers, (st.findWorker w).isSome = true) ∧
+  2 ≤ workers.length ∧ 0 < n ∧ n ≤ workers.length ∧
+  (∀ w ∈ workers, (st.findWorker w).isSome = true ∨ (st.findCumul w).isSome = true) ∧
   st.active = true ∧ (name.isSome = true → st.selects.any (fun s => s.name == name) = false)
 
-/-- **C18 (selections).** Accepted iff at least two listed workers (all existing), `1 ≤ n ≤` their
+/-- **C18 (selections).** Accepted iff at least two listed entries (each an existing worker or cumulative worker), `1 ≤ n ≤` their
     number, a problem exists, and the explicit name (if any) is not used by another selection. -/
 theorem C18_select_iff (st : State) (name : Option String) (workers : List String) (n : Int) (kind : CountKind) :
     Accepted st (.select name workers n kind) ↔ SelectWF st name workers n := by
@@ -192,19 +193,22 @@ theorem C18_select_iff (st : State) (name : Option String) (workers : List Strin
       simp at h1
       omega
   · have h1' : ¬ workers.length < 2 ∧ ¬ n ≤ 0 := by simpa using h1
-    by_cases h2 : workers.any (fun w => (st.findWorker w).isNone) = true
+    by_cases h2 : workers.any (fun w => (st.findWorker w).isNone && (st.findCumul w).isNone) = true
     · simp only [h1, h2, Bool.false_eq_true, if_false, if_true, fail]
       constructor
       · intro h; simp at h
       · intro ⟨_, _, _, hall, _⟩
         obtain ⟨w, hw, hn⟩ := List.any_eq_true.1 h2
         have := hall w hw
-        cases hf : st.findWorker w <;> simp_all
-    · have hall : ∀ w ∈ workers, (st.findWorker w).isSome = true := by
+        cases hf : st.findWorker w <;> cases hg : st.findCumul w <;> simp_all
+    · have hall : ∀ w ∈ workers, (st.findWorker w).isSome = true ∨ (st.findCumul w).isSome = true := by
         intro w hw
         cases hf : st.findWorker w with
-        | some _ => rfl
-        | none => exact absurd (List.any_eq_true.2 ⟨w, hw, by simp [hf]⟩) h2
+        | some _ => exact Or.inl rfl
+        | none =>
+            cases hg : st.findCumul w with
+            | some _ => exact Or.inr rfl
+            | none => exact absurd (List.any_eq_true.2 ⟨w, hw, by simp [hf, hg]⟩) h2
       by_cases h3 : n > workers.length
       · simp only [h1, h2, h3, Bool.false_eq_true, if_false, if_true, fail]
         constructor
